@@ -179,6 +179,8 @@ class FakeWriter:
         self.fail_drain = None
         self.on_write = None      # callback(bytes) -> deliver to the peer
         self.drain_calls = 0
+        self.flow = None          # callable -> True while the transport is paused (write buffer above the high-water mark)
+        self.drains_paused = 0
 
     def write(self, data):
         if self.closed:
@@ -194,6 +196,11 @@ class FakeWriter:
         if self.fail_drain is not None:
             raise self.fail_drain
         if self.auto_drain:
+            # like asyncio's StreamWriter: returns at once unless the transport paused the protocol
+            if self.flow is not None and self.flow():
+                self.drains_paused += 1
+                while self.flow() and not self.closed:
+                    await asyncio.sleep(0)
             return
         fut = asyncio.get_running_loop().create_future()
         self.pending_drains.append(fut)
